@@ -489,12 +489,39 @@ class _Walker:
             names = _assigned_names(st.body + st.orelse)
             tnames = _assigned_names([ast.Expr(value=st.target)]) if not isinstance(st, ast.While) else []
             carried = {}
-            for j, n in enumerate(n for n in names if n not in tnames):
+            # loop-carried locals are numbered by what they start from (then by first assignment), not by where in the body
+            # they are first assigned: reordering the body does not rename them
+            cn = [n for n in names if n not in tnames]
+
+            def _init_key(n: str) -> str:
+                pre = env.get(n)
+                try:
+                    return ast.unparse(pre) if pre is not None else "~"
+                except Exception:
+                    return "~"
+            cn = [n for _i, n in sorted(enumerate(cn), key=lambda t: (_init_key(t[1]), t[0]))]
+            for j, n in enumerate(cn):
                 sym = _name(f"LOOP{k}.{j}")
                 carried[n] = (sym, env.get(n))
                 env[n] = sym
-            for j, n in enumerate(tnames):
-                env[n] = ast.Call(func=_name(f"ELEM{k}.{j}"), args=[copy.deepcopy(it)], keywords=[])
+            # the element the loop looks at is ELEM<k>.0(iterable); a tuple target names its components ELEM<k>.0(iterable)[j],
+            # so `for a, b, c in xs` and `for e in xs: e[2]` are the same thing
+            if not isinstance(st, ast.While):
+                elem = ast.Call(func=_name(f"ELEM{k}.0"), args=[copy.deepcopy(it)], keywords=[])
+
+                def _bind_elem(t: ast.AST, v: ast.AST) -> None:
+                    if isinstance(t, ast.Name):
+                        env[t.id] = v
+                    elif isinstance(t, (ast.Tuple, ast.List)):
+                        for j2, x in enumerate(t.elts):
+                            if isinstance(x, ast.Starred):
+                                _bind_elem(x.value, ast.Call(func=_name("REST"), args=[copy.deepcopy(v), ast.Constant(value=j2)], keywords=[]))
+                            else:
+                                _bind_elem(x, ast.Subscript(value=copy.deepcopy(v), slice=ast.Constant(value=j2), ctx=ast.Load()))
+                    else:
+                        for n2 in tnames:
+                            env.setdefault(n2, ast.Call(func=_name(f"ELEM{k}.{tnames.index(n2)}"), args=[copy.deepcopy(it)], keywords=[]))
+                _bind_elem(st.target, elem)
             inner = cond + ((_name(f"LOOP{k}"), True),)
             if isinstance(st, ast.While):
                 t = self.ev(st.test, env)
@@ -934,6 +961,17 @@ class Printer:
                     e = ast.Compare(left=e.left, ops=[flip()], comparators=e.comparators)
                     pol = not pol
                     continue
+                # X == []  /  X == ""  /  X == {}  ->  not X      (emptiness of a container is its falsity)
+                if isinstance(op, ast.Eq):
+                    hit = False
+                    for a_, b_ in ((e.left, e.comparators[0]), (e.comparators[0], e.left)):
+                        if (isinstance(b_, (ast.List, ast.Tuple)) and not b_.elts) or (isinstance(b_, ast.Dict) and not b_.keys) \
+                                or (isinstance(b_, ast.Constant) and b_.value == "" and isinstance(b_.value, str)):
+                            if not isinstance(a_, (ast.List, ast.Tuple, ast.Dict, ast.Constant)):
+                                e, pol, hit = a_, not pol, True
+                                break
+                    if hit:
+                        continue
                 # type(x) == str  ->  isinstance(x, str)   (no str subclasses in this code base: parser tokens are str or ParseResults)
                 if isinstance(op, (ast.Eq, ast.Is)):
                     for a_, b_ in ((e.left, e.comparators[0]), (e.comparators[0], e.left)):
@@ -1317,6 +1355,10 @@ class Printer:
             s = f"{sh(e.value)}.{e.attr}{suffix}"
             return self.aliases.get(s, s)
         if isinstance(e, ast.Subscript):
+            if isinstance(e.slice, ast.Constant) and e.slice.value == 0 and isinstance(e.value, ast.Call) and isinstance(e.value.func, ast.Attribute) \
+                    and e.value.func.attr == "partition" and len(e.value.args) == 1 and not e.value.keywords:
+                # X.partition(S)[0] is X.split(S, 1)[0]: the text in front of the first S
+                return f"{sh(e.value.func.value)}.split({sh(e.value.args[0])}, 1)[0]{suffix}"
             s = f"{sh(e.value)}[{sh(e.slice)}]{suffix}"
             return self.aliases.get(s, s)
         if isinstance(e, ast.Slice):
@@ -1406,6 +1448,12 @@ class Printer:
                 t, b, o = t[4:-1], o, b
             return f"ite({t}, {b}, {o})"
         if isinstance(e, (ast.Tuple, ast.List, ast.Set)):
+            # (E[0], E[1], E[2]) for a loop element E that is unpacked into exactly those components is E itself
+            if isinstance(e, ast.Tuple) and len(e.elts) >= 2 and all(
+                    isinstance(x, ast.Subscript) and isinstance(x.slice, ast.Constant) and x.slice.value == j and isinstance(x.value, ast.Call)
+                    and isinstance(x.value.func, ast.Name) and x.value.func.id.startswith("ELEM") for j, x in enumerate(e.elts)) \
+                    and len({ast.dump(x.value) for x in e.elts}) == 1:
+                return sh(e.elts[0].value)  # type: ignore[attr-defined]
             br = {"Tuple": "()", "List": "[]", "Set": "{}"}[type(e).__name__]
             items = [sh(x) for x in e.elts]
             if isinstance(e, ast.Set):
